@@ -250,3 +250,14 @@ PROPS["C09"] = dict(
     assumptions=["exp(-1000) underflows to exactly 0 in float32 and float64 when computed as exp(x - max)"],
     stages=lambda tier: [mc("reduce-ops", "MC_C09.tla", "MC_C09_%s.cfg" % tier, min_cases=10000)],
 )
+
+PROPS["C10"] = dict(
+    rule="BFS: Abs/Relu/Not over every shape of rank 0..3 extents 1..3 (rank 0..4 thorough) x accepted dtypes x special-value catalogue "
+         "(NaN, +-Inf, +-0, +-MaxFloat, MIN/MAX); PRelu over every ordered shape pair of rank <= 3 (unidirectional slope broadcast) x 5 "
+         "dtypes; the 13 transcendental operators on the mpmath reference grid (79 float32 arguments each: +-0, subnormal, domain "
+         "edges, exp-overflow arguments, +-MaxFloat, +-Inf, NaN) embedded in tensors of every rank, f32 and f64, compared with the "
+         "correctly rounded value within the stated ulp tolerance; non-trivial = expected tensor with more than one element",
+    assumptions=["RefTables.tla is generated by spec/gen_reftables.py with mpmath at 200 bits; float64 results are compared at float32 resolution",
+                 "tolerances: 1 ulp for kernels evaluating in float64, 4 ulp for float32 Tanh, 4 + 2*ceil|x| ulp for float32 Sigmoid"],
+    stages=lambda tier: [mc("unary-ops", "MC_C10.tla", "MC_C10_%s.cfg" % tier, min_cases=3000)],
+)
